@@ -104,8 +104,8 @@ PROPS = {
                     "operand is dynamic -- so a well-typed sub-expression never makes its parent rejected.  METHOD ARGUMENTS: with the right argument "
                     "count, a method call on a statically typed receiver is rejected for its argument types exactly when an argument has a concrete "
                     "static type different from the documented one (member_arg_rule, expect_member_string_arg, expect_member_number_arg)."),
-        "not_covered": ("undeclared-name, call-arity, duplicate-function/parameter and reserved-name rules, method/argument typing on statically "
-                        "typed receivers (`\"abc\".find(5)` is accepted statically and reported at run time), index and condition operand rules, "
+        "not_covered": ("undeclared-name, call-arity, duplicate-function/parameter and reserved-name rules, which methods exist for which "
+                        "receiver type and their argument count, index and condition operand rules, "
                         "type tracking across re-declarations, and the recursion of check_expr over sub-expressions (cut at the arm boundary)."),
         "trusted_base": [KANI_TRUST, OS_TRUST, "predeclare_block_functions used through a registration-only contract stub in the check_function_body harness (its HashSet code is outside CBMC's reach)"],
     },
